@@ -313,6 +313,9 @@ class Prover:
         for t in terms:
             for ic in intrinsic_constraints(t):
                 if implies(ic, goal):
+                    why = self._resized_in_loop(block, goal)
+                    if why:
+                        return False, why
                     return True, "range-loop index (lo <= i < hi)"
         prog = self.fn.prog
         def pred(fc):
@@ -323,6 +326,27 @@ class Prover:
                 return False, "guard found but a compared place is written between the guard and the use"
             return True, "guarded by %d dominating comparison edge(s)" % len(edges)
         return False, "no dominating comparison establishes it"
+
+    def _resized_in_loop(self, block, goal):
+        """`for i in 0..v.len() { .. v[i] .. }` is only in bounds while v keeps its length: a call that resizes the
+        container inside the loop, after which the loop goes round again, invalidates the bound captured at loop entry"""
+        fn = self.fn
+        atoms = [a for a in goal[0] if a.startswith("len(")]
+        if not atoms:
+            return None
+        loops = [(h, body) for h, body in fn.loops() if block in body]
+        for h, body in loops:
+            for b in body:
+                t = fn.term(b)
+                if t["k"] != "call" or not t["args"]:
+                    continue
+                n = t.get("callee") or ""
+                if not any(n.endswith(m) for m in VEC_MUTATORS) or not ("Vec" in n or "VecDeque" in n or "String" in n):
+                    continue
+                recv = self.res.call_expr(t, b)[2][0]
+                if any(a == "len(%s)" % _atom(recv) for a in atoms) and t.get("target") is not None and h in fn.reachable(t["target"]):
+                    return "the container is resized inside the loop (%s) and the loop continues: the index bound taken at loop entry no longer holds" % A.short(n)
+        return None
 
     def _field_stores(self):
         if self._stores is None:
